@@ -199,6 +199,13 @@ class Shim:
         faults = self.plan.get('faults')    # {opname: errno} persistent fault on every op of that name, optional path filter
         rec = [name, args, None, k]           # k = index of this library-boundary operation (fault plans address it)
         self.trace.append(rec)
+        gate = self.plan.get('gate')          # lock-step scheduling: [read_fd, write_fd]; wait for the controller's turn
+        if gate is not None and name in ('exists', 'open', 'write', 'close', 'move', 'remove', 'unlink', 'makedirs'):
+            try:
+                self.orig['os.write'](gate[1], b'r')
+                self.orig['os.read'](gate[0], 1)
+            except OSError:
+                pass
         try:
             if name in ('exists', 'lexists', 'isdir', 'isfile', 'islink', 'ismount', 'access', 'isatty', 'input'):
                 fault = faults = None           # these never raise OSError in CPython: they answer False
@@ -245,7 +252,7 @@ class Shim:
         for n in ('exists', 'lexists', 'isdir', 'isfile', 'islink', 'ismount', 'realpath', 'abspath', 'getsize'):
             O[n] = getattr(os.path, n)
         for n in ('stat', 'lstat', 'access', 'listdir', 'makedirs', 'open', 'write', 'close', 'getuid', 'isatty',
-                  'readlink') + Shim.MUT_NAMES:
+                  'readlink', 'read') + Shim.MUT_NAMES:
             if hasattr(os, n):
                 O['os.' + n] = getattr(os, n)
         O['move'] = shutil.move
@@ -735,3 +742,127 @@ def _exec1(a):
         return execute(a[0], **a[1])
     except Exception as e:
         return {'before': {}, 'steps': [], 'harness_error': traceback.format_exc()}
+
+
+def execute_concurrent(scn, steps, schedule, timeout=20):
+    """run several commands AT THE SAME TIME in one tree, in lock step: `schedule` is a list of process indices; each grant
+    lets that process perform one gated library operation (exists / open / write / close / move / remove / makedirs).
+    When the schedule is exhausted the processes are released one after the other. Returns {'before','steps':[obs],'after'}"""
+    import select
+    import time
+    load_mains()
+    root = tempfile.mkdtemp(prefix='tvsb', dir=BASE)
+    try:
+        build_tree(root, scn.get('tree') or [])
+        for m in scn.get('mounts') or []:
+            os.makedirs(_real(root, m), exist_ok=True)
+        os.makedirs(os.fsencode(_real(root, scn.get('cwd', '/'))), exist_ok=True)
+        before = snapshot(root)
+        procs = []
+        for i, step in enumerate(steps):
+            c2p_r, c2p_w = os.pipe()
+            p2c_r, p2c_w = os.pipe()
+            ctl = tempfile.mkdtemp(prefix='tvctl', dir=BASE)
+            files = [os.path.join(ctl, n) for n in ('res.json', 'out', 'err')]
+            fds = [os.open(f, os.O_WRONLY | os.O_CREAT, 0o600) for f in files]
+            st = dict(step)
+            if schedule is not None:
+                st['plan'] = dict(st.get('plan') or {}, gate=[p2c_r, c2p_w])
+            sys.stdout.flush()
+            sys.stderr.flush()
+            pid = os.fork()
+            if pid == 0:
+                try:
+                    os.close(c2p_r)
+                    os.close(p2c_w)
+                    _child(root, scn, st, fds[0], fds[1], fds[2])
+                except BaseException:
+                    os._exit(99)
+            os.close(c2p_w)
+            os.close(p2c_r)
+            for fd in fds:
+                os.close(fd)
+            procs.append({'pid': pid, 'r': c2p_r, 'w': p2c_w, 'ctl': ctl, 'files': files, 'alive': True, 'waiting': False, 'status': None})
+        t0 = time.time()
+
+        def pump(block_on=None):
+            """update waiting/alive flags"""
+            for pr in procs:
+                if not pr['alive']:
+                    continue
+                if not pr['waiting']:
+                    r, _, _ = select.select([pr['r']], [], [], 0)
+                    if r:
+                        try:
+                            b = os.read(pr['r'], 1)
+                        except OSError:
+                            b = b''
+                        if b:
+                            pr['waiting'] = True
+                        else:
+                            w, stt = os.waitpid(pr['pid'], 0)
+                            pr['alive'] = False
+                            pr['status'] = stt
+
+        def settle(pr):
+            """wait until pr is waiting at its next gate or has exited"""
+            while pr['alive'] and not pr['waiting'] and time.time() - t0 < timeout:
+                r, _, _ = select.select([pr['r']], [], [], 0.5)
+                if r:
+                    try:
+                        b = os.read(pr['r'], 1)
+                    except OSError:
+                        b = b''
+                    if b:
+                        pr['waiting'] = True
+                    else:
+                        os.waitpid(pr['pid'], 0)
+                        pr['alive'] = False
+        for pr in procs:
+            settle(pr)
+        for i in list(schedule or []) + [None]:
+            if i is None:
+                break
+            pr = procs[i % len(procs)]
+            if pr['alive'] and pr['waiting']:
+                pr['waiting'] = False
+                try:
+                    os.write(pr['w'], b'g')
+                except OSError:
+                    pass
+                settle(pr)
+        # release: one process after the other, to completion
+        for pr in procs:
+            while pr['alive'] and time.time() - t0 < timeout:
+                if pr['waiting']:
+                    pr['waiting'] = False
+                    try:
+                        os.write(pr['w'], b'g')
+                    except OSError:
+                        pass
+                settle(pr)
+            if pr['alive']:
+                os.kill(pr['pid'], 9)
+                os.waitpid(pr['pid'], 0)
+                pr['alive'] = False
+                pr['timeout'] = True
+        outs = []
+        for pr in procs:
+            obs = {'timeout': bool(pr.get('timeout'))}
+            try:
+                txt = open(pr['files'][0]).read()
+                obs.update(json.loads(txt) if txt else {'exit': None, 'exc': None, 'trace': [], 'harness_error': 'no result'})
+            except Exception as e:
+                obs.update({'exit': None, 'harness_error': repr(e)})
+            obs['stdout'] = open(pr['files'][1], 'rb').read().decode('utf-8', 'surrogateescape')
+            obs['stderr'] = open(pr['files'][2], 'rb').read().decode('utf-8', 'surrogateescape')
+            for fd in (pr['r'], pr['w']):
+                try:
+                    os.close(fd)
+                except OSError:
+                    pass
+            shutil.rmtree(pr['ctl'], ignore_errors=True)
+            outs.append(obs)
+        return {'before': before, 'steps': outs, 'after': snapshot(root)}
+    finally:
+        _force_rmtree(root)
